@@ -39,9 +39,6 @@ theorem peel_sendFrame (p : List Nat) (rqSa rsSa ch seq : Nat)
 
 /-! ### reply direction -/
 
-theorem mkReply_length (h : Hdr) (body : List Nat) : (mkReply h body).length = body.length + 7 := by
-  simp [mkReply]
-
 theorem wrapLayer_length (h : Hdr) (cc : Nat) (inner : List Nat) :
     (wrapLayer h cc inner).length = inner.length + 8 := by
   simp [wrapLayer, mkReply_length]
@@ -55,6 +52,30 @@ theorem wrapLayer_cmd (h : Hdr) (cc : Nat) (inner : List Nat) :
     (wrapLayer h cc inner)[5]'(by rw [wrapLayer_length]; omega) = 0x34 := by
   simp [wrapLayer, mkReply, cmdSendMessage]
 
+theorem wrapLayer_byte5 (h : Hdr) (cc : Nat) (inner : List Nat) : byteAt (wrapLayer h cc inner) 5 = 0x34 := by
+  simp [wrapLayer, mkReply, cmdSendMessage, byteAt]
+
+theorem wrapLayer_byte1 (h : Hdr) (cc : Nat) (inner : List Nat) :
+    byteAt (wrapLayer h cc inner) 1 = 28 + h.rqLun := by
+  simp [wrapLayer, mkReply, netfnApp, byteAt]
+
+theorem wrapLayer_byte4 (h : Hdr) (cc : Nat) (inner : List Nat) :
+    byteAt (wrapLayer h cc inner) 4 = h.seq * 4 + h.rsLun := by
+  simp [wrapLayer, mkReply, byteAt]
+
+theorem wrapLayer_hdrOk (h : Hdr) (cc : Nat) (inner : List Nat) : hdrOk (wrapLayer h cc inner) :=
+  mkReply_hdrOk _ _
+
+theorem wrapLayer_payOk (h : Hdr) (cc : Nat) (inner : List Nat) : payOk (wrapLayer h cc inner) :=
+  mkReply_payOk _ _
+
+/-- the specification's Send Message response IS one (for a 2-bit requester LUN) -/
+theorem wrapLayer_isSendMsgRsp (h : Hdr) (cc : Nat) (inner : List Nat) (hq : h.rqLun < 4) :
+    IsSendMsgRsp (wrapLayer h cc inner) := by
+  refine ⟨by rw [wrapLayer_length]; omega, wrapLayer_hdrOk _ _ _, wrapLayer_payOk _ _ _, ?_, ?_⟩
+  · unfold rspNetfn; rw [wrapLayer_byte1]; simp [netfnApp]; omega
+  · unfold rspCmd; rw [wrapLayer_byte5]; rfl
+
 theorem wrapLayer_drop6 (h : Hdr) (cc : Nat) (inner : List Nat) :
     ∃ c, (wrapLayer h cc inner).drop 6 = cc :: (inner ++ [c]) := by
   simp [wrapLayer, mkReply]
@@ -63,24 +84,135 @@ theorem wrapLayer_inner (h : Hdr) (cc : Nat) (inner : List Nat) :
     ((wrapLayer h cc inner).drop 7).dropLast = inner := by
   simp [wrapLayer, mkReply]
 
+/-! #### recognition -/
+
+/-- the model's test is the specification's, per variant -/
+theorem isSendMsgRsp_repaired_iff (verify : Bool) (f : List Nat) :
+    isSendMsgRsp .repaired verify f = true ↔
+      (NamesSendMsgRsp f ∧ (verify = true → hdrOk f ∧ payOk f)) := by
+  unfold isSendMsgRsp NamesSendMsgRsp rspNetfn rspCmd hdrOk payOk
+  simp only [Bool.and_eq_true, beq_iff_eq, Bool.or_eq_true, Bool.not_eq_true', pyChecksum_zero_iff, shr2,
+    Gen.IpmbFilter.constNetfnApp, Gen.IpmbFilter.constSendMsgCmd, netfnApp, cmdSendMessage]
+  cases verify <;> simp
+
+theorem isSendMsgRsp_asShipped_iff (verify : Bool) (f : List Nat) :
+    isSendMsgRsp .asShipped verify f = true ↔ rspCmd f = cmdSendMessage := by
+  simp [isSendMsgRsp, rspCmd, Gen.IpmbFilter.constSendMsgCmd, cmdSendMessage]
+
+/-- both variants recognise an intact Send Message response -/
+theorem isSendMsgRsp_of_spec (v : Variant) (verify : Bool) (f : List Nat) (hs : IsSendMsgRsp f) :
+    isSendMsgRsp v verify f = true := by
+  cases v with
+  | asShipped => exact (isSendMsgRsp_asShipped_iff verify f).2 hs.2.2.2.2
+  | repaired => exact (isSendMsgRsp_repaired_iff verify f).2 ⟨hs.2.2.2, fun _ => ⟨hs.2.1, hs.2.2.1⟩⟩
+
+/-- repaired: a frame that does not name the Send Message response is left alone -/
+theorem not_names_not_recognised (verify : Bool) (f : List Nat) (hn : ¬ NamesSendMsgRsp f) :
+    isSendMsgRsp .repaired verify f = false := by
+  rw [Bool.eq_false_iff]
+  intro h
+  exact hn ((isSendMsgRsp_repaired_iff verify f).1 h).1
+
+/-- repaired, `verify=True`: a frame with a bad checksum is not taken for a Send Message response -/
+theorem damaged_not_recognised (f : List Nat) (hd : ¬ (hdrOk f ∧ payOk f)) :
+    isSendMsgRsp .repaired true f = false := by
+  rw [Bool.eq_false_iff]
+  intro h
+  exact hd (((isSendMsgRsp_repaired_iff true f).1 h).2 rfl)
+
+/-- more fuel than bytes is as good as any -/
+theorem decodeN_fuel (v : Variant) (verify : Bool) (n m : Nat) (rx : List Nat) (hn : rx.length < n)
+    (hm : rx.length < m) : decodeN v verify n rx = decodeN v verify m rx := by
+  induction n generalizing m rx with
+  | zero => omega
+  | succ n ih =>
+    cases m with
+    | zero => omega
+    | succ m =>
+      simp only [decodeN]
+      by_cases hl : 5 < rx.length
+      · simp only [hl, if_true]
+        cases hs : isSendMsgRsp v verify rx with
+        | false => simp
+        | true =>
+          simp only [if_true]
+          cases hd : rx.drop 6 with
+          | nil => rfl
+          | cons cc t =>
+            simp only
+            by_cases hcc : cc = 0
+            · simp only [hcc, ne_eq, not_true_eq_false, if_false]
+              by_cases hs6 : ((rx.drop 7).dropLast).length < 6
+              · simp only [hs6, if_true]
+              · simp only [hs6, if_false]
+                apply ih <;> (simp only [List.length_dropLast, List.length_drop]; omega)
+            · simp [hcc]
+      · simp only [hl, if_false]
+
+/-- the loop of `decode_bridged_message`, one round unfolded -/
+theorem decodeBridged_eq (v : Variant) (verify : Bool) (rx : List Nat) :
+    decodeBridged v verify rx =
+      if 5 < rx.length then
+        if isSendMsgRsp v verify rx then
+          match rx.drop 6 with
+          | [] => .decodingError
+          | cc :: _ =>
+            if cc ≠ 0 then .ccError cc
+            else if ((rx.drop 7).dropLast).length < 6 then .ok (rx.drop 7).dropLast
+            else decodeBridged v verify (rx.drop 7).dropLast
+        else .ok rx
+      else shortFrame v rx := by
+  conv => lhs; unfold decodeBridged; simp only [decodeN]
+  by_cases hl : 5 < rx.length
+  · simp only [hl, if_true]
+    cases hs : isSendMsgRsp v verify rx with
+    | false => simp
+    | true =>
+      simp only [if_true]
+      cases hd : rx.drop 6 with
+      | nil => rfl
+      | cons cc t =>
+        simp only
+        by_cases hcc : cc = 0
+        · simp only [hcc, ne_eq, not_true_eq_false, if_false]
+          by_cases hs6 : ((rx.drop 7).dropLast).length < 6
+          · simp only [hs6, if_true]
+          · simp only [hs6, if_false]
+            unfold decodeBridged
+            apply decodeN_fuel <;> (simp only [List.length_dropLast, List.length_drop]; omega)
+        · simp [hcc]
+  · simp only [hl, if_false]
+
 /-- one step of the unwrapping loop on a Send Message response -/
-theorem decodeBridged_layer (h : Hdr) (cc : Nat) (inner : List Nat) :
-    decodeBridged (wrapLayer h cc inner) =
+theorem decodeBridged_layer (v : Variant) (verify : Bool) (h : Hdr) (cc : Nat) (inner : List Nat)
+    (hq : v = .repaired → h.rqLun < 4) :
+    decodeBridged v verify (wrapLayer h cc inner) =
       if cc ≠ 0 then .ccError cc
-      else if inner.length < 6 then .ok inner else decodeBridged inner := by
-  rw [decodeBridged]
+      else if inner.length < 6 then .ok inner else decodeBridged v verify inner := by
+  rw [decodeBridged_eq]
   have hl : 5 < (wrapLayer h cc inner).length := by rw [wrapLayer_length]; omega
   obtain ⟨c, hc⟩ := wrapLayer_drop6 h cc inner
-  simp only [hl, dite_true, wrapLayer_cmd, Gen.IpmbFilter.constSendMsgCmd, ne_eq, not_true_eq_false,
-    if_false, hc, wrapLayer_inner]
+  have hrec : isSendMsgRsp v verify (wrapLayer h cc inner) = true := by
+    cases v with
+    | asShipped => rw [isSendMsgRsp_asShipped_iff]; unfold rspCmd; rw [wrapLayer_byte5]; rfl
+    | repaired => exact isSendMsgRsp_of_spec _ _ _ (wrapLayer_isSendMsgRsp h cc inner (hq rfl))
+  simp only [hl, if_true, hrec, hc, wrapLayer_inner]
 
-theorem decodeBridged_plain (r : List Nat) (h6 : 6 ≤ r.length) (hc : r[5]? ≠ some 0x34) :
-    decodeBridged r = .ok r := by
-  rw [decodeBridged]
+theorem decodeBridged_plain (v : Variant) (verify : Bool) (r : List Nat) (h6 : 6 ≤ r.length)
+    (hn : isSendMsgRsp v verify r = false) : decodeBridged v verify r = .ok r := by
+  rw [decodeBridged_eq]
   have hl : 5 < r.length := by omega
-  have : r[5] ≠ 0x34 := by
-    intro h; apply hc; rw [← h]; exact List.getElem?_eq_getElem hl
-  simp [hl, this, Gen.IpmbFilter.constSendMsgCmd]
+  simp [hl, hn]
+
+theorem rspCmd_of_getElem? (r : List Nat) (hc : r[5]? ≠ some 0x34) : rspCmd r ≠ cmdSendMessage := by
+  unfold rspCmd byteAt cmdSendMessage
+  intro h
+  apply hc
+  by_cases hl : 5 < r.length
+  · rw [List.getElem?_eq_getElem hl]
+    simp [List.getD, List.getElem?_eq_getElem hl] at h
+    rw [h]
+  · simp [List.getD, List.getElem?_eq_none (by omega : r.length ≤ 5)] at h
 
 /-! ### whole-message lemmas used by Props/C09 -/
 
@@ -90,29 +222,106 @@ theorem encodeBridged_append (rs : List Route) (last : Route) (h : Hdr) (p : Lis
         (encodeIpmbMsg { h with rqSa := last.rqSa, rsSa := last.rsSa } p) := by
   simp [encodeBridged]
 
-theorem decodeBridged_ack (layers : List Hdr) (acking : Hdr) :
-    decodeBridged (wrapReply layers (wrapLayer acking 0 [])) = .ok [] := by
+theorem decodeBridged_ack (v : Variant) (verify : Bool) (layers : List Hdr) (acking : Hdr)
+    (hq : v = .repaired → (∀ h ∈ layers, h.rqLun < 4) ∧ acking.rqLun < 4) :
+    decodeBridged v verify (wrapReply layers (wrapLayer acking 0 [])) = .ok [] := by
   induction layers with
-  | nil => simp [wrapReply, decodeBridged_layer]
+  | nil => simp [wrapReply, decodeBridged_layer v verify acking 0 [] (fun hv => (hq hv).2)]
   | cons h hs ih =>
     have hlen := wrapReply_length_ge hs (wrapLayer acking 0 [])
     rw [wrapLayer_length] at hlen
     have : ¬ (wrapReply hs (wrapLayer acking 0 [])).length < 6 := by omega
-    simp [wrapReply, decodeBridged_layer, this, ih]
+    have ih' := ih (fun hv => ⟨fun x hx => (hq hv).1 x (List.mem_cons_of_mem _ hx), (hq hv).2⟩)
+    simp [wrapReply, decodeBridged_layer v verify h 0 _ (fun hv => (hq hv).1 h List.mem_cons_self), this, ih']
 
-theorem ack_cmd (f : List Nat) (ha : IsBareAck f) :
-    ∃ h : 5 < f.length, f[5] = 0x34 := by
-  obtain ⟨layers, acking, rfl⟩ := ha
+/-! ### the transport's treatment of one frame -/
+
+theorem bridgeHdr_even (seq : Nat) : (bridgeHdr seq).netfn % 2 = 0 := by
+  simp [bridgeHdr, Gen.IpmbFilter.constNetfnApp]
+
+/-- the response to the outermost Send Message of THIS transaction passes the repaired transport's
+first filter (`rx_filter(bridge_header, …)`) -/
+theorem bridge_filter_layer (seq : Nat) (fl : Flags) (h : Hdr) (cc : Nat) (inner : List Nat)
+    (hs : SendMsgOf seq h) :
+    rxFilter (bridgeHdr seq) (wrapLayer h cc inner) { rqSeq := fl.rqSeq } = .ok true := by
+  obtain ⟨h1, h2, h3⟩ := hs
+  rw [rxFilter_true_iff _ _ _ (bridgeHdr_even seq)]
+  have e1 : (28 + h.rqLun) / 4 = 7 := by omega
+  refine ⟨by rw [wrapLayer_length]; omega, wrapLayer_hdrOk _ _ _, wrapLayer_payOk _ _ _, ?_, ?_, ?_, ?_, ?_, ?_, ?_⟩
+  · unfold rspNetfn; rw [wrapLayer_byte1, e1]; rfl
+  · unfold rspCmd; rw [wrapLayer_byte5]; rfl
+  · intro _; unfold rspRsLun; rw [wrapLayer_byte4, h1]; simp [bridgeHdr]
+  · intro _; unfold rspSeq; rw [wrapLayer_byte4, h1, h3]; simp [bridgeHdr]
+  · intro hx; cases hx
+  · intro hx; cases hx
+  · intro hx; cases hx
+
+/-- a Send Message response that belongs to ANOTHER transaction (other sequence number, comparison
+not switched off) does not pass it -/
+theorem bridge_filter_foreign (seq : Nat) (fl : Flags) (h : Hdr) (cc : Nat) (inner : List Nat)
+    (hfl : fl.rqSeq = true) (hl : h.rsLun < 4) (hne : h.seq ≠ seq) :
+    rxFilter (bridgeHdr seq) (wrapLayer h cc inner) { rqSeq := fl.rqSeq } = .ok false := by
+  have h6 : 6 ≤ (wrapLayer h cc inner).length := by rw [wrapLayer_length]; omega
+  cases hx : rxFilter (bridgeHdr seq) (wrapLayer h cc inner) { rqSeq := fl.rqSeq } with
+  | ok b =>
+    cases b with
+    | false => rfl
+    | true =>
+      have := ((rxFilter_true_iff _ _ _ (bridgeHdr_even seq)).1 hx).2.2.2.2.2.2.1 hfl
+      unfold rspSeq at this
+      rw [wrapLayer_byte4] at this
+      simp only [bridgeHdr] at this
+      omega
+  | _ =>
+    unfold rxFilter at hx
+    rw [rspNeeds_eq] at hx
+    simp [show ¬ (wrapLayer h cc inner).length = 0 by omega, show ¬ (wrapLayer h cc inner).length < 6 by omega] at hx
+
+
+theorem afterFilter_hit (req : Hdr) (fl : Flags) (g : List Nat) (hn : req.netfn % 2 = 0)
+    (hr : isReplyTo req g fl) : afterFilter req fl g = .hit (replyData g) := by
+  simp [afterFilter, (rxFilter_true_iff req g fl hn).2 hr, replyData, frameData]
+
+theorem afterFilter_noise (req : Hdr) (fl : Flags) (g : List Nat) (hn : req.netfn % 2 = 0) (h6 : 6 ≤ g.length)
+    (hr : ¬ isReplyTo req g fl) : afterFilter req fl g = .noise := by
+  simp [afterFilter, rxFilter_false req g fl hn h6 hr]
+
+theorem rxFilter_shape (req : Hdr) (fl : Flags) (g : List Nat) :
+    (∃ b, rxFilter req g fl = .ok b) ∨ (∃ n, rxFilter req g fl = .pyError n) := by
+  unfold rxFilter
+  split
+  · exact Or.inr ⟨_, rfl⟩
+  · split
+    · exact Or.inr ⟨_, rfl⟩
+    · exact Or.inl ⟨_, rfl⟩
+
+/-- the filter never produces a completion-code error: only unwrapping does -/
+theorem afterFilter_no_cc (req : Hdr) (fl : Flags) (g : List Nat) (c : Nat) :
+    afterFilter req fl g ≠ .err (.ccError c) := by
+  unfold afterFilter
+  rcases rxFilter_shape req fl g with ⟨b, hb⟩ | ⟨n, hn⟩
+  · rw [hb]; cases b <;> (intro h; cases h)
+  · rw [hn]; intro h; simp [errAs] at h
+
+/-- repaired transport: a bare acknowledgement of THIS transaction is skipped -/
+theorem classify_ack (seq : Nat) (req : Hdr) (fl : Flags) (f : List Nat) (ha : AckOf seq f) :
+    classifyRx .repaired (some (bridgeHdr seq)) req fl f = .ack := by
+  obtain ⟨layers, acking, hl, hk, rfl⟩ := ha
+  have hq : Variant.repaired = .repaired → (∀ h ∈ layers, h.rqLun < 4) ∧ acking.rqLun < 4 :=
+    fun _ => ⟨fun h hh => (hl h hh).2.1, hk.2.1⟩
+  have hdec := decodeBridged_ack .repaired true layers acking hq
   cases layers with
-  | nil => exact ⟨by rw [wrapReply, wrapLayer_length]; omega, by simp only [wrapReply]; exact wrapLayer_cmd _ _ _⟩
-  | cons h hs => exact ⟨by rw [wrapReply, wrapLayer_length]; omega, by simp only [wrapReply]; exact wrapLayer_cmd _ _ _⟩
+  | nil =>
+    simp only [wrapReply] at hdec ⊢
+    simp [classifyRx, bridge_filter_layer seq fl acking 0 [] hk, hdec, afterUnwrap]
+  | cons h hs =>
+    simp only [wrapReply] at hdec ⊢
+    simp [classifyRx, bridge_filter_layer seq fl h 0 _ (hl h List.mem_cons_self), hdec, afterUnwrap]
 
-theorem recv_skip_ack (req : Hdr) (fl : Flags) (f : List Nat) (rest : List (List Nat))
-    (ha : IsBareAck f) : recvBridged req fl (f :: rest) = recvBridged req fl rest := by
-  obtain ⟨hl, hc⟩ := ack_cmd f ha
-  obtain ⟨layers, acking, rfl⟩ := ha
-  rw [recvBridged]
-  simp only [hl, dite_true, hc, Gen.IpmbFilter.constSendMsgCmd, if_true, decodeBridged_ack]
-
+theorem recv_skip_ack (seq : Nat) (req : Hdr) (fl : Flags) (f : List Nat) (rest : List (List Nat))
+    (ha : AckOf seq f) :
+    recvBridged .repaired (some (bridgeHdr seq)) req fl (f :: rest) =
+      recvBridged .repaired (some (bridgeHdr seq)) req fl rest := by
+  rw [recvBridged, classify_ack seq req fl f ha]
 
 end PyIpmi.Bridge
